@@ -816,7 +816,7 @@ Section WithCodec4.
       apply andb_prop in Hwf as [Hg Hb]. destruct g; [discriminate|]. destruct blocks; [discriminate|].
       cbn [opt_w truthy] in H2, H3. inversion H1; inversion H2; inversion H3; subst.
       change (len (@nil Z) =? 0) with true. cbn iota. reflexivity. }
-    apply andb_prop in Hwf as [Hwf Hguard]. apply andb_prop in Hwf as [Hwf Hblocks].
+    apply andb_prop in Hwf as [Hwf Hblocks].
     apply andb_prop in Hwf as [Hli Hg].
     destruct (layer_info_rt enc_s dec_s v pad li b1 n1 (b2 ++ b3 ++ rest) Hpad Hli H1) as [Hrli Hlen1].
     assert (Hne : (len body =? 0) = false) by (rewrite Hbody; len_lia).
@@ -831,21 +831,15 @@ Section WithCodec4.
     destruct Htb as (bl & Hwb & Hwfb & Hbl2).
     (* the global layer mask info *)
     assert (Hglmi : r_opt (is_readable glmi_probe (b2 ++ b3 ++ rest) &&
-                           (len (b1 ++ b2 ++ b3 ++ rest) - len (b2 ++ b3 ++ rest) <? len (b1 ++ b2 ++ b3)))
+                           (len (b1 ++ b2 ++ b3 ++ rest) - len (b2 ++ b3 ++ rest) + glmi_probe <=? len (b1 ++ b2 ++ b3)))
                       read_glmi (b2 ++ b3 ++ rest) = Ok (g, b3 ++ rest)).
     { destruct g as [gg|]; cbn [opt_w] in H2.
       - destruct (glmi_rt gg b2 n2 (b3 ++ rest) Hg H2) as [Hrg Hlen2].
         replace (is_readable glmi_probe (b2 ++ b3 ++ rest) && _) with true.
         { unfold r_opt. rewrite Hrg. reflexivity. }
         symmetry. apply andb_true_intro. split.
-        + unfold is_readable. apply Z.leb_le. rewrite !len_app, Hlen2.
-          unfold glmi_guard in Hguard. cbn [la_glmi la_blocks] in Hguard.
-          destruct (g_overlay gg).
-          * unfold glmi_probe. pose_nonneg. lia.
-          * replace (match blocks with Some bs0 => bs0 | None => [] end) with bl in Hguard
-              by (destruct blocks; subst; reflexivity).
-            rewrite Hwb in Hguard. lia.
-        + apply Z.ltb_lt. rewrite !len_app. pose_nonneg. destruct (g_overlay gg); lia.
+        + unfold is_readable, glmi_probe. apply Z.leb_le. rewrite !len_app, Hlen2. pose_nonneg. destruct (g_overlay gg); lia.
+        + unfold glmi_probe. apply Z.leb_le. rewrite !len_app. pose_nonneg. destruct (g_overlay gg); lia.
       - inversion H2; subst. cbn [app].
         assert (b3 = []).
         { destruct blocks as [[|t bl']|]; cbn [truthy opt_w is_some nonempty orb negb andb] in *.
@@ -853,8 +847,8 @@ Section WithCodec4.
           - apply andb_prop in Hblocks as [Hblocks _]. apply andb_prop in Hblocks as [_ Hblocks]. discriminate.
           - inversion H3; reflexivity. }
         subst b3. cbn [app]. rewrite app_nil_r.
-        replace (len (b1 ++ rest) - len rest <? len b1) with false
-          by (symmetry; apply Z.ltb_ge; rewrite len_app; lia).
+        replace (len (b1 ++ rest) - len rest + glmi_probe <=? len b1) with false
+          by (symmetry; unfold glmi_probe; rewrite len_app; lia).
         rewrite andb_false_r. reflexivity. }
     rewrite Hglmi. cbn [bind].
     (* the tagged blocks *)
